@@ -711,7 +711,7 @@ func reencode(f *Func, r *Rng) (Func, bool) {
 			}
 			q := p
 			for d := r.Intn(3); d > 0; d-- {
-				q = Param{Kind: PObj, Fields: []Param{q}}
+				q = Param{Kind: PObj, Fields: []Param{q}, Embed: r.P(0.3)}
 			}
 			cur.Fields = append(cur.Fields, q)
 			_ = i
